@@ -514,10 +514,52 @@ func (c *Ctx) Mul(a, b *Term) *Term {
 		c.linearize(a, b.Val, m, &k)
 		return c.fromLinear(a.S, m, k)
 	}
+	// x * ite(c, k1, k2) with constant leaves: distribute, so that only constant multipliers remain
+	if constLeafIte(b, 0) {
+		return c.mulIte(a, b)
+	}
+	if constLeafIte(a, 0) {
+		return c.mulIte(b, a)
+	}
 	if a.ID > b.ID {
 		a, b = b, a
 	}
 	return c.mk(OMul, a.S, []*Term{a, b}, 0, "", 0, 0)
+}
+
+func constLeafIte(t *Term, depth int) bool {
+	if t.Op == OConst {
+		return depth > 0
+	}
+	if t.Op == OIte && depth < 24 {
+		return constLeafIte(t.Args[1], depth+1) && constLeafIte(t.Args[2], depth+1)
+	}
+	if t.Op == OAdd && depth < 24 {
+		// sums of const-leaf ites (e.g. ksz + vsz)
+		for _, a := range t.Args {
+			if !constLeafIte(a, depth+1) {
+				return false
+			}
+		}
+		return true
+	}
+	return false
+}
+
+func (c *Ctx) mulIte(x, t *Term) *Term {
+	switch t.Op {
+	case OConst:
+		return c.Mul(x, t)
+	case OIte:
+		return c.Ite(t.Args[0], c.mulIte(x, t.Args[1]), c.mulIte(x, t.Args[2]))
+	case OAdd:
+		r := c.Const(x.S.W, 0)
+		for _, a := range t.Args {
+			r = c.Add(r, c.mulIte(x, a))
+		}
+		return r
+	}
+	return c.mk(OMul, x.S, []*Term{x, t}, 0, "", 0, 0)
 }
 
 func (c *Ctx) bin(op Op, a, b *Term) *Term {
